@@ -95,5 +95,8 @@ EmitG ==
 Init == InitM \/ InitG
 Next == Grow \/ Start \/ StepV \/ StepL \/ StepS \/ GrowG
 Spec == Init /\ [][Next]_vars
+\* the three scans terminate (a caller that keeps stepping them reaches `done`)
+LiveSpec == Spec /\ WF_vars(StepV \/ StepL \/ StepS)
+ScansTerminate == (phase = "run") ~> (vst.done /\ lst.done /\ sst.done)
 Inv == MachinesAgree /\ EmitG
 =============================================================================
